@@ -132,6 +132,44 @@ def t_augassign():
     return Target('ThreadSafeAttribute[obj.attr op= x]', run, [TSA + '__get__', TSA + '__set__'])
 
 
+def t_augassign_rhs_read():
+    """obj.attr op= other.attr : __get__ (target), __get__ (right-hand side, same attribute name, possibly another
+    instance), compute, __set__ -- all on ONE source line, so the classifier gives both reads the same answer."""
+    def run(it):
+        c = it.c
+        d, lock = make_attr(it)
+        a = instance(it, 'a')
+        same = c.choose(2, 'rhs-is-the-same-instance') == 0
+        b = a if same else instance(it, 'b')
+        ln = stmt(it)
+        c.assume(nonatomic(sval(ln.e)))
+        key = None
+        out1 = run_body(it, method(it, d, '__get__'), [a, SClass('object')])
+        out2 = run_body(it, method(it, d, '__get__'), [b, SClass('object')])
+        b_before = c.to_ref(out2.value) if out2.raised is None and not isinstance(out2.value, tuple) else None
+        v = c.fresh_ref('computed', None, distinct=False)
+        out3 = run_body(it, method(it, d, '__set__'), [a, v])
+        ok = out1.raised is None and out2.raised is None and out3.raised is None
+        c.prove('augassign-rhs-read:post/returns-normally', ok, tags=('C27', 'C28'))
+        if not ok:
+            return
+        c.prove('augassign-rhs-read:post/lock-released', c.hget(lock, 'held') == 0, tags=('C27', 'C28'))
+        c.prove('augassign-rhs-read:post/flag-reset', c.hget(d, '_is_atomic'), tags=('C27',))
+        # C29: the result lands on the target instance, the other instance keeps its value
+        ln2 = stmt(it)
+        c.assume(z3.And(z3.Not(nonatomic(sval(ln2.e))), z3.Not(reqlock(sval(ln2.e)))))
+        ra = run_body(it, method(it, d, '__get__'), [a, SClass('object')])
+        c.prove('augassign-rhs-read:post/target-instance-reads-the-result',
+                c.to_ref(ra.value) == v.e if ra.raised is None and not isinstance(ra.value, tuple) else False, tags=('C29',))
+        if not same and b_before is not None:
+            rb = run_body(it, method(it, d, '__get__'), [b, SClass('object')])
+            c.prove('augassign-rhs-read:post/other-instance-keeps-its-value',
+                    c.to_ref(rb.value) == b_before if rb.raised is None and not isinstance(rb.value, tuple) else False,
+                    tags=('C29',))
+        c.cover('augassign-rhs-read:cover')
+    return Target('ThreadSafeAttribute[obj.attr op= other.attr]', run, [TSA + '__get__', TSA + '__set__'])
+
+
 def t_lock_request():
     """_, _lock = obj.attr : the documented way to obtain the lock object."""
     def run(it):
